@@ -1,6 +1,8 @@
 package vc
 
 import (
+	"bytes"
+	"io"
 	"bufio"
 	"fmt"
 	"os"
@@ -129,12 +131,22 @@ var (
 	reLabel    = regexp.MustCompile(`^([A-Za-z_][A-Za-z0-9_.\-]*):\s+`)
 )
 
+// ContractOverlay: replacement text for contract files (set from the --overlay
+// option, so that a contract under development can be tried without touching /repo).
+var ContractOverlay map[string][]byte
+
 func ParseContractFile(path string) (*ContractFile, error) {
-	f, err := os.Open(path)
-	if err != nil {
-		return nil, err
+	var f io.Reader
+	if b, ok := ContractOverlay[path]; ok {
+		f = bytes.NewReader(b)
+	} else {
+		fh, err := os.Open(path)
+		if err != nil {
+			return nil, err
+		}
+		defer fh.Close()
+		f = fh
 	}
-	defer f.Close()
 	cf := &ContractFile{Path: path, Macros: map[string]*Macro{}}
 	type rawLine struct {
 		text string
